@@ -6,6 +6,7 @@ value-level round-trip equality through bincode/postcard (third-party numeric be
 from .lib import query as q
 from .lib.budget import Budget, buffer_id
 from .lib.symx import show
+from .lib.facts import strip_generics
 from . import c07
 from .c09 import _Rename
 
@@ -161,6 +162,25 @@ def r4_derives(ctx, f, rep):
             good = all('derive(' in b.raw['span']['mac'] and b.raw['span']['exp'] for b in ser + de)
         rep.check(good, 'C20-R4', ty, 'Serialize and Deserialize are both #[derive]d', construct='serde-derives',
                   facts={'serialize': [b.raw['span']['mac'] for b in ser], 'deserialize': [b.raw['span']['mac'] for b in de]})
+        # ... and plain: no field attribute makes the two halves disagree on which fields are on the wire.  The formats
+        # used here are positional, so a field skipped by the writer (`skip_serializing_if`), defaulted by the reader
+        # (`default`) or routed through a hand-written function (`with`, `serialize_with`, ...) breaks the round trip.
+        gen = [b for b in f.bodies if ('_serde' in b.nname or '::_::' in b.nname) and
+               ('for %s>' % ty in b.nname or 'for %s ' % ty in b.nname)]
+        odd = []
+        for b in gen:
+            for _, t in f.calls(b):
+                nm = strip_generics(t['res'] or t['decl'])
+                tgt = f.by_name.get(nm, [])
+                if nm.endswith('::skip_field') or nm.endswith('SerializeStruct::skip_field'):
+                    odd.append((b.nname, nm))
+                elif nm.endswith('core::default::Default>::default') or nm == 'core::default::Default::default':
+                    odd.append((b.nname, nm))
+                elif tgt and not any(('_serde' in x.nname or '::_::' in x.nname) for x in tgt):
+                    odd.append((b.nname, nm))
+        rep.check(not odd and len(gen) >= 2, 'C20-R4', ty, 'the derived impls are plain: no field is skipped, defaulted or '
+                  'routed through a hand-written function', construct='serde-plain',
+                  facts={'generated_bodies': len(gen), 'offending': sorted(set(odd))[:6]})
 
 
 def check(ctx):
